@@ -96,6 +96,9 @@ type Session struct {
 	// schema answers for the two statements dbVersion issues
 	Tables   []string
 	Versions map[string]string // e.g. {"tempo_v2": "0"}
+	// SchemaFault, if set, is asked before each schema lookup ("settings" = the version rows, "show-tables"); a
+	// non-nil error is what the database answers instead
+	SchemaFault func(kind string) error
 }
 
 var (
@@ -132,11 +135,21 @@ func (c *conn) QueryContext(ctx context.Context, q string, args []driver.NamedVa
 	var err error
 	switch {
 	case strings.Contains(q, "FROM settings") && strings.Contains(q, "type='update'"):
+		if sf := s.SchemaFault; sf != nil {
+			if err = sf("settings"); err != nil {
+				break
+			}
+		}
 		r = NewRows([]string{"_name", "_value"}, nil)
 		for k, v := range s.Versions {
 			r.Data = append(r.Data, []driver.Value{k, v})
 		}
 	case strings.HasPrefix(strings.TrimSpace(q), "SHOW TABLES"):
+		if sf := s.SchemaFault; sf != nil {
+			if err = sf("show-tables"); err != nil {
+				break
+			}
+		}
 		r = NewRows([]string{"name"}, nil)
 		for _, t := range s.Tables {
 			r.Data = append(r.Data, []driver.Value{t})
